@@ -97,3 +97,75 @@ Theorem C11_nested_head_min_npartitions_refuted : exists (parts : list (list nat
   firstn n2 (head_rows parts k1 n1) <> head_rows parts (Nat.min k2 k1) (Nat.min n2 n1).
 Proof. exact nested_head_min_npartitions_refuted. Qed.
 Print Assumptions C11_nested_head_min_npartitions_refuted.
+
+(* positional selection (Select.v): the lowering of head(n, npartitions=k) -- head of each of the first k partitions, concatenate,
+   head again -- returns exactly the first n rows of the first k partitions, for every n, k >= 1 and every partitioning (short and
+   empty partitions included); without the second head it does not (k >= 2); tail(n) is the tail of the last partition;
+   both commute with element-wise operations on co-partitioned operands (Head/Tail._simplify_down) but not with row filters;
+   partition selections commute with element-wise operations and compose.  Tie: T-LAYER select_layer (shape of the real lowered
+   expression and computed rows vs the extracted head_lowered / tail_lowered). *)
+From DX Require Import Select SelectProofs.
+Theorem C11_head_lowering_correct : forall A (n k : nat) (parts : list (list A)),
+  1 <= k -> head_lowered n k parts = head_spec n k parts.
+Proof. exact head_lowered_correct. Qed.
+Print Assumptions C11_head_lowering_correct.
+
+Theorem C11_head_without_second_head_refuted : exists (n k : nat) (parts : list (list nat)),
+  2 <= k /\ head_lowered_no_second n k parts <> head_spec n k parts.
+Proof. exact head_no_second_refuted. Qed.
+Print Assumptions C11_head_without_second_head_refuted.
+
+Theorem C11_tail_lowering_correct : forall A n (parts : list (list A)),
+  parts <> [] -> tail_lowered n parts = tail_spec n parts.
+Proof. exact tail_lowered_correct. Qed.
+Print Assumptions C11_tail_lowering_correct.
+
+Theorem C11_head_through_elemwise : forall A B C (f : A -> B -> C) n k (P1 : list (list A)) (P2 : list (list B)),
+  same_shape P1 P2 ->
+  head_spec n k (elemwise2 f P1 P2) = zipw f (head_spec n k P1) (head_spec n k P2).
+Proof. exact head_spec_elemwise2. Qed.
+Print Assumptions C11_head_through_elemwise.
+
+Theorem C11_tail_through_elemwise : forall A B C (f : A -> B -> C) n (P1 : list (list A)) (P2 : list (list B)),
+  same_shape P1 P2 ->
+  tail_spec n (elemwise2 f P1 P2) = zipw f (tail_spec n P1) (tail_spec n P2).
+Proof. exact tail_spec_elemwise2. Qed.
+Print Assumptions C11_tail_through_elemwise.
+
+Theorem C11_head_not_through_filter : exists (p : nat -> bool) n (l : list nat),
+  head_rows n (filter p l) <> filter p (head_rows n l).
+Proof. exact head_filter_refuted. Qed.
+Print Assumptions C11_head_not_through_filter.
+
+Theorem C11_select_through_elemwise : forall A B C (f : A -> B -> C) sel (P1 : list (list A)) (P2 : list (list B)),
+  same_shape P1 P2 -> Forall (fun i => i < length P1) sel ->
+  select sel (elemwise2 f P1 P2) = elemwise2 f (select sel P1) (select sel P2).
+Proof. exact select_elemwise2. Qed.
+Print Assumptions C11_select_through_elemwise.
+
+Theorem C11_select_of_select : forall A (s1 s2 : list nat) (parts : list (list A)),
+  Forall (fun i => i < length s1) s2 ->
+  select s2 (select s1 parts) = select (map (fun i => nth i s1 0) s2) parts.
+Proof. exact select_select. Qed.
+Print Assumptions C11_select_of_select.
+
+Theorem C11_head_is_selection_of_first_partitions : forall A n k (parts : list (list A)),
+  head_spec n k parts = head_rows n (concat (select (seq 0 (Nat.min k (length parts))) parts)).
+Proof. exact head_is_select. Qed.
+Print Assumptions C11_head_is_selection_of_first_partitions.
+
+(* head over a sorted collection (Head(SortValues) -> NFirst): the n smallest rows, computed as a tree reduction, are the first n
+   rows of the first sorted partition whenever that partition holds at least n rows; when it is shorter the rewritten plan returns
+   MORE rows (the globally smallest n) than the first partition holds -- the upstream-intended deviation, refuted as an equality *)
+Theorem C11_sorted_head_is_nfirst : forall A (key : A -> Z) n (parts sp : list (list A)),
+  sorted_partitioning key parts sp -> n <= length (hd [] sp) ->
+  head_spec n 1 sp = nfirst_tree key n parts.
+Proof. intros A key n parts sp H1 H2. rewrite nfirst_tree_correct. exact (head_of_sorted_is_nfirst A key n parts sp H1 H2). Qed.
+Print Assumptions C11_sorted_head_is_nfirst.
+
+Theorem C11_sorted_head_short_first_partition_refuted :
+  exists (parts sp : list (list (Z * Z))) (n : nat),
+    sorted_partitioning fst parts sp /\ length (hd [] sp) < n /\
+    head_spec n 1 sp <> nfirst_spec fst n parts.
+Proof. exact head_of_sorted_short_first_partition_refuted. Qed.
+Print Assumptions C11_sorted_head_short_first_partition_refuted.
